@@ -4,6 +4,8 @@
                         | shbig (sharded LRU whose shards can hold every key used: no eviction)
                         | shsmall (sharded LRU with evictions; shard choice uses a random hash
                           seed, so answers are not replayable: lines print `-`, oracle only)
+   WIRE cache ttl  the backend cache manager built with distinct TTL options: wall clock, not in the
+                   model (answered `WIRE done`); oracle on the Go side, theorems in Props/C20Wiring.lean
    A k v | G k | K k (Peek) | C k (Contains) | D k (Remove) | PG (Purge) | LEN
 -/
 import YorkieModel.Driver.Proto
@@ -38,6 +40,7 @@ def step (s : St) (toks : List String) : St × List String :=
   | ["D", k] =>
     let k := parseNatD k
     ({ s with c := s.c.remove k }, out "D" s!"D {showBool (s.c.lookup k).isSome}")
+  | ["WIRE", _, _] => (s, ["WIRE done"])
   | ["PG"] => ({ s with c := s.c.purge }, ["PG"])
   | ["LEN"] => (s, out "LEN" s!"LEN {(s.c.shards 0).length}")
   | _ => (s, ["bad-op"])
